@@ -315,4 +315,107 @@ theorem mapM_pieceOut_err (hole : HoleFn) (ps : List Piece)
         | none => simp [List.mapM_cons, hq, ht]
         | some l => rw [ht] at this; simp at this
 
+/-! ### text that contains `{` -/
+
+/-- a character that the scanner copies: anything but `{`, or a `{` that is not followed (after
+    blanks) by another `{` -/
+def CopyOK (c : Char) (after : List Char) : Prop :=
+  c ≠ '{' ∨ (after.dropWhile isWs).head? ≠ some '{'
+
+theorem scan_copy (fuel : Nat) (c : Char) (more : List Char) (h : CopyOK c more) :
+    scanTemplate (fuel + 1) (c :: more) = .text c :: scanTemplate fuel more := by
+  by_cases hc : c = '{'
+  · subst hc
+    have h2 : (more.dropWhile isWs).head? ≠ some '{' := by
+      rcases h with h | h
+      · exact absurd rfl h
+      · exact h
+    simp only [scanTemplate, if_true]
+    cases hr : more.dropWhile isWs with
+    | nil => rfl
+    | cons d t =>
+      rw [hr] at h2
+      have hd : d ≠ '{' := by simpa using h2
+      split
+      · rename_i heq; simp at heq; exact absurd heq.1 hd
+      · rfl
+  · simp [scanTemplate, hc]
+
+/-- sequences of pieces in which text may contain `{`: every copied character satisfies `CopyOK`
+    with respect to the rendered rest, holes as in `PieceOKS` -/
+def PiecesOK : List Piece → Prop
+  | [] => True
+  | p :: r =>
+    (match p with
+     | .text c => CopyOK c (r.flatMap renderPieceS)
+     | q => PieceOKS q) ∧ PiecesOK r
+
+theorem piecesOK_of_all (ps : List Piece) (h : ∀ p ∈ ps, PieceOKS p) : PiecesOK ps := by
+  induction ps with
+  | nil => trivial
+  | cons p t ih =>
+    refine ⟨?_, ih (fun q hq => h q (by simp [hq]))⟩
+    have h0 := h p (by simp)
+    cases p with
+    | text c => exact Or.inl h0
+    | hole a b c => exact h0
+    | raise => exact h0
+
+theorem scan_renderB (ps : List Piece) (hp : PiecesOK ps) :
+    ∀ fuel, (ps.flatMap renderPieceS).length < fuel → scanTemplate fuel (ps.flatMap renderPieceS) = ps := by
+  induction ps with
+  | nil => intro fuel _; cases fuel <;> simp [scanTemplate]
+  | cons p ps ih =>
+    intro fuel hf
+    obtain ⟨h0, hr⟩ := hp
+    cases fuel with
+    | zero => simp at hf
+    | succ n =>
+      have hrr : (p :: ps).flatMap renderPieceS = renderPieceS p ++ ps.flatMap renderPieceS := by simp
+      rw [hrr] at hf ⊢
+      rw [List.length_append] at hf
+      cases p with
+      | text c =>
+        have hl : (renderPieceS (.text c)).length = 1 := rfl
+        show scanTemplate (n + 1) (c :: ps.flatMap renderPieceS) = _
+        rw [scan_copy n c _ h0, ih hr n (by omega)]
+      | hole a b c =>
+        have hl := renderPieceS_length _ h0
+        rw [scan_pieceS n _ h0, ih hr n (by omega)]
+      | raise => exact h0.elim
+
+/-- a text in which no `{` is followed (after blanks) by another `{` -/
+def PlainOK : List Char → Prop
+  | [] => True
+  | c :: r => CopyOK c r ∧ PlainOK r
+
+theorem plain_render (s : List Char) : (s.map Piece.text).flatMap renderPieceS = s := by
+  induction s with
+  | nil => rfl
+  | cons c t ih => simp only [List.map_cons, List.flatMap_cons, renderPieceS, ih]; rfl
+
+theorem plain_piecesOK (s : List Char) (h : PlainOK s) : PiecesOK (s.map Piece.text) := by
+  induction s with
+  | nil => trivial
+  | cons c t ih =>
+    obtain ⟨h0, hr⟩ := h
+    refine ⟨?_, ih hr⟩
+    show CopyOK c ((t.map Piece.text).flatMap renderPieceS)
+    rw [plain_render]; exact h0
+
+theorem plain_out (hole : HoleFn) (s : List Char) :
+    ((s.map Piece.text).mapM (pieceOut hole)).map List.flatten = some s := by
+  have := mapM_pieceOut_ok hole (fun p => renderPieceS p) (s.map Piece.text)
+    (by intro p hp; obtain ⟨c, _, rfl⟩ := List.mem_map.mp hp; rfl)
+  rw [this, plain_render]
+
+instance (c : Char) (after : List Char) : Decidable (CopyOK c after) := by
+  unfold CopyOK; infer_instance
+
+instance plainDec : (s : List Char) → Decidable (PlainOK s)
+  | [] => .isTrue trivial
+  | c :: r =>
+    have := plainDec r
+    (inferInstance : Decidable (CopyOK c r ∧ PlainOK r))
+
 end SciVerif.C18
